@@ -358,7 +358,9 @@ class TU:
         c = ev.get("callee", -1)
         if c is None or c < 0:
             return []
-        if ev.get("virt"):
+        # implicit destructor calls of automatic / temporary / member / base sub-objects are direct calls
+        # of the static type's destructor; only `delete p` and virtual member calls dispatch dynamically
+        if ev.get("virt") and ev["e"] != "dtor":
             t = self.overriders(c)
             return t if t else [c]
         return [c]
